@@ -6,7 +6,7 @@
     Base/Hex.v.  The model (Model/C06_Mesh.v, Model/C06_Render.v) is tied to the code by the program
     correspondence of the check (file parsed and compared inside Coq). *)
 From Coq Require Import List Bool Arith ZArith QArith String.
-From CB Require Import Base.Hex Model.C06_Render Model.C06_Mesh Proofs.C06_Roundtrip Proofs.C06_Mesh.
+From CB Require Import Base.Hex Model.C06_Render Model.C06_Mesh Proofs.C06_Roundtrip Proofs.C06_Mesh Proofs.C06_Sections.
 From CB Require Import Gen.C06.Tables.
 Import ListNotations.
 Open Scope nat_scope.
@@ -54,9 +54,18 @@ Definition C06_quads_are_sides_stmt : Prop :=
     (forall p qd, In p (f_patches (ast_of table_fm m)) -> In qd (p_quads p) -> is_block_side (ast_of table_fm m) qd)
     /\ (forall qd l, In (qd, l) (f_faces (ast_of table_fm m)) -> is_block_side (ast_of table_fm m) qd).
 
-(** sections are exactly what was declared (full statement) *)
+(** sections are exactly what was declared.
+    Vocabulary (Proofs/C06_Sections.v): [keep_first same l] = [l] without the elements that are [same] as
+    an earlier one (order of first occurrence); [assigned fm obs] = the (patch name, quad) pairs declared
+    by the operations [obs], each paired with its hex entry, operations in order, sides in the order
+    bottom, top, front, right, back, left; [projected fm obs] = the (quad, label) pairs of the projected
+    sides, sides in the order front, right, back, left, bottom, top; [geom_defs m] = all geometry
+    definitions, the user's dictionaries first, then the automatic ones of the entities in depot order;
+    [pairwise_distinct same l] = no two elements of [l] are [same]. *)
 Definition C06_sections_exact_stmt : Prop :=
   forall m, let f := ast_of table_fm m in
+  let decl := combine (live_ops m) (f_blocks f) in   (* live operation k with hex entry k *)
+  let mods := rev (m_modify_pre m ++ m_modify_post m) in   (* modifications, last first *)
   (* hex entries: the non-deleted operations in order, with zone and counts, eight indexes each *)
   (map (fun b => (b_zone b, b_counts b)) (f_blocks f) = map (fun o => (zone_of (o_zone o), o_counts o)) (live_ops m)
    /\ forall b, In b (f_blocks f) -> List.length (b_vids b) = 8)
@@ -72,11 +81,26 @@ Definition C06_sections_exact_stmt : Prop :=
   /\ (forall p qd, In p (f_patches f) -> In qd (p_quads p) ->
         exists k o b s, nth_error (live_ops m) k = Some o /\ nth_error (f_blocks f) k = Some b
                         /\ patch_of (o_calls o) s = Some (p_name p) /\ qd = side_quad table_fm (b_vids b) s)
-  (* type and settings of a patch: the last modification, else patch / none *)
+  (* the patches: each name once, in the order of first mention (modifications before assembly,
+     assigned sides, modifications after assembly) *)
+  /\ map p_name (f_patches f)
+     = keep_first String.eqb (map mod_name (m_modify_pre m) ++ map fst (assigned table_fm decl)
+                              ++ map mod_name (m_modify_post m))
+  (* the quads of a patch: the sides assigned to it in declaration order, each set of vertices once *)
   /\ (forall p, In p (f_patches f) ->
-        match find (fun md => String.eqb (fst (fst md)) (p_name p)) (rev (m_modify_pre m ++ m_modify_post m)) with
-        | Some md => p_kind p = snd (fst md)
+        p_quads p = keep_first same_set (map snd (filter (fun d => String.eqb (fst d) (p_name p)) (assigned table_fm decl)))
+        /\ pairwise_distinct same_set (p_quads p))
+  (* type of a patch: the last modification, else patch (and then no settings) *)
+  /\ (forall p, In p (f_patches f) ->
+        match find (fun md => String.eqb (mod_name md) (p_name p)) mods with
+        | Some md => p_kind p = mod_kind md
         | None => p_kind p = "patch"%string /\ p_settings p = []
+        end)
+  (* settings of a patch: those of the last modification that gave settings, else none *)
+  /\ (forall p, In p (f_patches f) ->
+        match find (fun md => String.eqb (mod_name md) (p_name p) && has_settings md) mods with
+        | Some md => snd md = Some (p_settings p)
+        | None => p_settings p = []
         end)
   (* every projected side is in the faces section, and nothing else is *)
   /\ (forall k o b s l, nth_error (live_ops m) k = Some o -> nth_error (f_blocks f) k = Some b ->
@@ -85,18 +109,16 @@ Definition C06_sections_exact_stmt : Prop :=
   /\ (forall qd l, In (qd, l) (f_faces f) ->
         exists k o b s, nth_error (live_ops m) k = Some o /\ nth_error (f_blocks f) k = Some b
                         /\ pface_of (o_calls o) s = Some l /\ qd = side_quad table_fm (b_vids b) s)
-  (* geometry: the user's dictionaries and the entities' automatic ones, later definitions replacing earlier *)
+  (* the faces section: the projected sides in declaration order, each set of vertices once (the first label) *)
+  /\ (f_faces f = keep_first face_same (projected table_fm decl) /\ pairwise_distinct face_same (f_faces f))
+  (* geometry: the user's dictionaries and the entities' automatic ones ... *)
   /\ (forall n ps, In (n, ps) (f_geometry f) ->
         (exists g, In g (m_geometry m) /\ In (n, ps) g)
-        \/ (exists e g, In e (m_depot m) /\ e_geom e = Some g /\ In (n, ps) g)).
-
-(** the part of it that is proved: hex entries and verbatim declarations *)
-Definition C06_sections_exact_partial_stmt : Prop :=
-  forall m, let f := ast_of table_fm m in
-  (map (fun b => (b_zone b, b_counts b)) (f_blocks f) = map (fun o => (zone_of (o_zone o), o_counts o)) (live_ops m)
-   /\ forall b, In b (f_blocks f) -> List.length (b_vids b) = 8)
-  /\ (f_merged f = m_merged m /\ f_default f = m_default m
-      /\ f_settings f = settings_of (m_settings m) /\ f_header f = m_header m).
+        \/ (exists e g, In e (m_depot m) /\ e_geom e = Some g /\ In (n, ps) g))
+  (* ... each name once in the order of first definition, later definitions replacing earlier *)
+  /\ map fst (f_geometry f) = keep_first String.eqb (map fst (geom_defs m))
+  /\ (forall n ps, In (n, ps) (f_geometry f)
+                   <-> find (fun d => String.eqb (fst d) n) (rev (geom_defs m)) = Some (n, ps)).
 
 (** the debug VTK lists the same points and hexahedra *)
 Definition C06_vtk_same_stmt : Prop :=
@@ -138,8 +160,46 @@ Proof. exact (fun m => indices_valid table_fm m table_fm_ok). Qed.
 Theorem C06_quads_are_sides : C06_quads_are_sides_stmt.
 Proof. exact (fun m => quads_are_sides table_fm m table_fm_ok). Qed.
 
-Theorem C06_sections_exact_partial : C06_sections_exact_partial_stmt.
-Proof. exact (fun m => conj (blocks_are_live_ops table_fm m) (declarations_verbatim table_fm m)). Qed.
+Theorem C06_sections_exact : C06_sections_exact_stmt.
+Proof.
+  intros m f decl mods.
+  split; [exact (blocks_are_live_ops table_fm m)|].
+  split; [exact (declarations_verbatim table_fm m)|].
+  split; [exact (assigned_side_written table_fm m)|].
+  split; [exact (written_quad_assigned table_fm m)|].
+  split; [exact (patch_names_exact table_fm m)|].
+  split; [intros p Hp; split; [exact (proj1 (patch_exact table_fm m p Hp))|exact (patch_quads_distinct table_fm m p Hp)]|].
+  split; [intros p Hp; exact (proj1 (proj2 (patch_exact table_fm m p Hp)))|].
+  split; [intros p Hp; exact (proj2 (proj2 (patch_exact table_fm m p Hp)))|].
+  split; [exact (projected_side_written table_fm m)|].
+  split; [exact (written_face_projected table_fm m)|].
+  split; [exact (conj (faces_exact table_fm m) (faces_distinct table_fm m))|].
+  split; [exact (geometry_declared table_fm m)|].
+  split; [exact (geometry_names_exact table_fm m)|].
+  exact (geometry_last_wins table_fm m).
+Qed.
+
+(** the statement at work: two cubes side by side, the shared side assigned to "mid" from both (written once),
+    "mid" modified twice (last type wins, the settings of the modification that gave some are kept), a
+    geometry defined twice (last definition wins), a deleted operation absent *)
+Definition ex_cube (dx : Z) (calls : list ocall) (deleted : bool) : op :=
+  let P (x y z : Z) : pt := (inject_Z (x + dx), inject_Z y, inject_Z z) in
+  mkOp [P 0 0 0; P 1 0 0; P 1 1 0; P 0 1 0; P 0 0 1; P 1 0 1; P 1 1 1; P 0 1 1]%Z deleted calls "" [1; 1; 1] [].
+Definition ex_mesh : mesh :=
+  mkMesh [] [] [[("g"%string, [[W "a"]])]; [("g"%string, [[W "b"]])]]
+         [("mid", "wall", Some [[W "x"]])]%string [] None
+         [mkEnt [ex_cube 0 [SetPatch [Right] "mid"; ProjSide Right "g" false] false;
+                 ex_cube 5 [SetPatch [Top] "gone"] true;
+                 ex_cube 1 [SetPatch [Left] "mid"; SetPatch [Top] "lid"; ProjSide Left "h" false] false] None]
+         [("mid", "cyclic", None)]%string.
+Example sections_example :
+  let f := ast_of table_fm ex_mesh in
+  map (fun p => (p_name p, p_kind p, p_settings p, List.length (p_quads p))) (f_patches f)
+  = [("mid", "cyclic", [[W "x"]], 1); ("lid", "patch", [], 1)]%string
+  /\ map snd (f_faces f) = ["g"%string]
+  /\ f_geometry f = [("g"%string, [[W "b"]])]
+  /\ List.length (f_blocks f) = 2.
+Proof. vm_compute. repeat split; reflexivity. Qed.
 
 Theorem C06_vtk_same : C06_vtk_same_stmt.
 Proof. exact (fun m => vtk_same table_fm m). Qed.
@@ -153,6 +213,6 @@ Print Assumptions C06_corner_patches.
 Print Assumptions C06_edge_order.
 Print Assumptions C06_indices_valid.
 Print Assumptions C06_quads_are_sides.
-Print Assumptions C06_sections_exact_partial.
+Print Assumptions C06_sections_exact.
 Print Assumptions C06_vtk_same.
 Print Assumptions C06_vertex_lookup.
